@@ -16,127 +16,136 @@ theorem rdOr_none (F : NumFmt K) (d : K) : rdOr F none d = .ok d := rfl
 
 set_option maxRecDepth 2000 in
 set_option maxHeartbeats 1600000 in
-theorem pe_distance (F : NumFmt K) (hF : F.LawfulOn R) (cf : String) (impl : K)
+theorem pe_distance (F : NumFmt K) (hF : F.LawfulOn R) (rdVal : String → Option K) (sval : String) (cf : String) (impl : K)
     (from_ to fs : String) (val stdev fromDh toDh fsDh : K) (extern : String)
-    (r1 : R val) (r2 : R stdev) (r3 : R fromDh) (r4 : R toDh) (r5 : R fsDh)
+    (q1 : rdVal sval = some val) (r2 : R stdev) (r3 : R fromDh) (r4 : R toDh) (r5 : R fsDh)
     (h1 : from_ ≠ "") (h2 : to ≠ "") (h4 : fs = "") (h5 : fsDh = F.zero) :
-    parseObs F cf F.zero impl .distance (exportObs F true cf ⟨.distance, from_, to, fs, val, stdev, fromDh, toDh, fsDh, extern⟩).2
+    parseObsV F rdVal cf F.zero impl .distance (exportObsV F true cf ⟨.distance, from_, to, fs, val, stdev, fromDh, toDh, fsDh, extern⟩ sval).2
       = .ok ⟨.distance, from_, to, fs, val, stdev, fromDh, toDh, fsDh, extern⟩ := by
   have iz : ∀ x, F.isZero x = true ↔ x = F.zero := hF.isZero_iff
-  have q1 := hF.rd_fmt val r1
   have q2 := hF.rd_fmt stdev r2
   have q3 := hF.rd_fmt fromDh r3
   have q4 := hF.rd_fmt toDh r4
   have q5 := hF.rd_fmt fsDh r5
   by_cases e2 : fromDh = F.zero <;> by_cases e3 : toDh = F.zero <;> by_cases e1 : cf = from_ <;> by_cases e5 : extern = "" <;>
-  simp [exportObs, parseObs, reach, route, dhAttr, Kind.elem, rdOr, q1, q2, q3, q4, q5, bind, Except.bind, pure, Except.pure,
+  simp [exportObsV, parseObsV, reach, route, dhAttr, Kind.elem, rdOr, q1, q2, q3, q4, q5, bind, Except.bind, pure, Except.pure,
     iz, h1, h2, *]
 
 set_option maxRecDepth 2000 in
 set_option maxHeartbeats 1600000 in
-theorem pe_sdistance (F : NumFmt K) (hF : F.LawfulOn R) (cf : String) (impl : K)
+theorem pe_sdistance (F : NumFmt K) (hF : F.LawfulOn R) (rdVal : String → Option K) (sval : String) (cf : String) (impl : K)
     (from_ to fs : String) (val stdev fromDh toDh fsDh : K) (extern : String)
-    (r1 : R val) (r2 : R stdev) (r3 : R fromDh) (r4 : R toDh) (r5 : R fsDh)
+    (q1 : rdVal sval = some val) (r2 : R stdev) (r3 : R fromDh) (r4 : R toDh) (r5 : R fsDh)
     (h1 : from_ ≠ "") (h2 : to ≠ "") (h4 : fs = "") (h5 : fsDh = F.zero) :
-    parseObs F cf F.zero impl .sdistance (exportObs F true cf ⟨.sdistance, from_, to, fs, val, stdev, fromDh, toDh, fsDh, extern⟩).2
+    parseObsV F rdVal cf F.zero impl .sdistance (exportObsV F true cf ⟨.sdistance, from_, to, fs, val, stdev, fromDh, toDh, fsDh, extern⟩ sval).2
       = .ok ⟨.sdistance, from_, to, fs, val, stdev, fromDh, toDh, fsDh, extern⟩ := by
   have iz : ∀ x, F.isZero x = true ↔ x = F.zero := hF.isZero_iff
-  have q1 := hF.rd_fmt val r1
   have q2 := hF.rd_fmt stdev r2
   have q3 := hF.rd_fmt fromDh r3
   have q4 := hF.rd_fmt toDh r4
   have q5 := hF.rd_fmt fsDh r5
   by_cases e2 : fromDh = F.zero <;> by_cases e3 : toDh = F.zero <;> by_cases e1 : cf = from_ <;> by_cases e5 : extern = "" <;>
-  simp [exportObs, parseObs, reach, route, dhAttr, Kind.elem, rdOr, q1, q2, q3, q4, q5, bind, Except.bind, pure, Except.pure,
+  simp [exportObsV, parseObsV, reach, route, dhAttr, Kind.elem, rdOr, q1, q2, q3, q4, q5, bind, Except.bind, pure, Except.pure,
     iz, h1, h2, *]
 
 set_option maxRecDepth 2000 in
 set_option maxHeartbeats 1600000 in
-theorem pe_zangle (F : NumFmt K) (hF : F.LawfulOn R) (cf : String) (impl : K)
+theorem pe_zangle (F : NumFmt K) (hF : F.LawfulOn R) (rdVal : String → Option K) (sval : String) (cf : String) (impl : K)
     (from_ to fs : String) (val stdev fromDh toDh fsDh : K) (extern : String)
-    (r1 : R val) (r2 : R stdev) (r3 : R fromDh) (r4 : R toDh) (r5 : R fsDh)
+    (q1 : rdVal sval = some val) (r2 : R stdev) (r3 : R fromDh) (r4 : R toDh) (r5 : R fsDh)
     (h1 : from_ ≠ "") (h2 : to ≠ "") (h4 : fs = "") (h5 : fsDh = F.zero) :
-    parseObs F cf F.zero impl .zangle (exportObs F true cf ⟨.zangle, from_, to, fs, val, stdev, fromDh, toDh, fsDh, extern⟩).2
+    parseObsV F rdVal cf F.zero impl .zangle (exportObsV F true cf ⟨.zangle, from_, to, fs, val, stdev, fromDh, toDh, fsDh, extern⟩ sval).2
       = .ok ⟨.zangle, from_, to, fs, val, stdev, fromDh, toDh, fsDh, extern⟩ := by
   have iz : ∀ x, F.isZero x = true ↔ x = F.zero := hF.isZero_iff
-  have q1 := hF.rd_fmt val r1
   have q2 := hF.rd_fmt stdev r2
   have q3 := hF.rd_fmt fromDh r3
   have q4 := hF.rd_fmt toDh r4
   have q5 := hF.rd_fmt fsDh r5
   by_cases e2 : fromDh = F.zero <;> by_cases e3 : toDh = F.zero <;> by_cases e1 : cf = from_ <;> by_cases e5 : extern = "" <;>
-  simp [exportObs, parseObs, reach, route, dhAttr, Kind.elem, rdOr, q1, q2, q3, q4, q5, bind, Except.bind, pure, Except.pure,
+  simp [exportObsV, parseObsV, reach, route, dhAttr, Kind.elem, rdOr, q1, q2, q3, q4, q5, bind, Except.bind, pure, Except.pure,
     iz, h1, h2, *]
 
 set_option maxRecDepth 2000 in
 set_option maxHeartbeats 1600000 in
-theorem pe_azimuth (F : NumFmt K) (hF : F.LawfulOn R) (cf : String) (impl : K)
+theorem pe_azimuth (F : NumFmt K) (hF : F.LawfulOn R) (rdVal : String → Option K) (sval : String) (cf : String) (impl : K)
     (from_ to fs : String) (val stdev fromDh toDh fsDh : K) (extern : String)
-    (r1 : R val) (r2 : R stdev) (r3 : R fromDh) (r4 : R toDh) (r5 : R fsDh)
+    (q1 : rdVal sval = some val) (r2 : R stdev) (r3 : R fromDh) (r4 : R toDh) (r5 : R fsDh)
     (h1 : from_ ≠ "") (h2 : to ≠ "") (h4 : fs = "") (h5 : fsDh = F.zero) :
-    parseObs F cf F.zero impl .azimuth (exportObs F true cf ⟨.azimuth, from_, to, fs, val, stdev, fromDh, toDh, fsDh, extern⟩).2
+    parseObsV F rdVal cf F.zero impl .azimuth (exportObsV F true cf ⟨.azimuth, from_, to, fs, val, stdev, fromDh, toDh, fsDh, extern⟩ sval).2
       = .ok ⟨.azimuth, from_, to, fs, val, stdev, fromDh, toDh, fsDh, extern⟩ := by
   have iz : ∀ x, F.isZero x = true ↔ x = F.zero := hF.isZero_iff
-  have q1 := hF.rd_fmt val r1
   have q2 := hF.rd_fmt stdev r2
   have q3 := hF.rd_fmt fromDh r3
   have q4 := hF.rd_fmt toDh r4
   have q5 := hF.rd_fmt fsDh r5
   by_cases e2 : fromDh = F.zero <;> by_cases e3 : toDh = F.zero <;> by_cases e1 : cf = from_ <;> by_cases e5 : extern = "" <;>
-  simp [exportObs, parseObs, reach, route, dhAttr, Kind.elem, rdOr, q1, q2, q3, q4, q5, bind, Except.bind, pure, Except.pure,
+  simp [exportObsV, parseObsV, reach, route, dhAttr, Kind.elem, rdOr, q1, q2, q3, q4, q5, bind, Except.bind, pure, Except.pure,
     iz, h1, h2, *]
 
 set_option maxRecDepth 2000 in
 set_option maxHeartbeats 1600000 in
-theorem pe_direction (F : NumFmt K) (hF : F.LawfulOn R) (cf : String) (impl : K)
+theorem pe_direction (F : NumFmt K) (hF : F.LawfulOn R) (rdVal : String → Option K) (sval : String) (cf : String) (impl : K)
     (from_ to fs : String) (val stdev fromDh toDh fsDh : K) (extern : String)
-    (r1 : R val) (r2 : R stdev) (r3 : R fromDh) (r4 : R toDh) (r5 : R fsDh)
+    (q1 : rdVal sval = some val) (r2 : R stdev) (r3 : R fromDh) (r4 : R toDh) (r5 : R fsDh)
     (h1 : from_ ≠ "") (h2 : to ≠ "") (h4 : fs = "") (h5 : fsDh = F.zero) (h6 : from_ = cf) :
-    parseObs F cf F.zero impl .direction (exportObs F true cf ⟨.direction, from_, to, fs, val, stdev, fromDh, toDh, fsDh, extern⟩).2
+    parseObsV F rdVal cf F.zero impl .direction (exportObsV F true cf ⟨.direction, from_, to, fs, val, stdev, fromDh, toDh, fsDh, extern⟩ sval).2
       = .ok ⟨.direction, from_, to, fs, val, stdev, fromDh, toDh, fsDh, extern⟩ := by
   have iz : ∀ x, F.isZero x = true ↔ x = F.zero := hF.isZero_iff
-  have q1 := hF.rd_fmt val r1
   have q2 := hF.rd_fmt stdev r2
   have q3 := hF.rd_fmt fromDh r3
   have q4 := hF.rd_fmt toDh r4
   have q5 := hF.rd_fmt fsDh r5
   subst h6
   by_cases e2 : fromDh = F.zero <;> by_cases e3 : toDh = F.zero <;> by_cases e5 : extern = "" <;>
-  simp [exportObs, parseObs, reach, route, dhAttr, Kind.elem, rdOr, q1, q2, q3, q4, q5, bind, Except.bind, pure, Except.pure,
+  simp [exportObsV, parseObsV, reach, route, dhAttr, Kind.elem, rdOr, q1, q2, q3, q4, q5, bind, Except.bind, pure, Except.pure,
     iz, h1, h2, *]
 
 set_option maxRecDepth 2000 in
 set_option maxHeartbeats 1600000 in
-theorem pe_angle (F : NumFmt K) (hF : F.LawfulOn R) (cf : String) (impl : K)
+theorem pe_angle (F : NumFmt K) (hF : F.LawfulOn R) (rdVal : String → Option K) (sval : String) (cf : String) (impl : K)
     (from_ to fs : String) (val stdev fromDh toDh fsDh : K) (extern : String)
-    (r1 : R val) (r2 : R stdev) (r3 : R fromDh) (r4 : R toDh) (r5 : R fsDh)
+    (q1 : rdVal sval = some val) (r2 : R stdev) (r3 : R fromDh) (r4 : R toDh) (r5 : R fsDh)
     (h1 : from_ ≠ "") (h2 : to ≠ "") (h3 : fs ≠ "") :
-    parseObs F cf F.zero impl .angle (exportObs F true cf ⟨.angle, from_, to, fs, val, stdev, fromDh, toDh, fsDh, extern⟩).2
+    parseObsV F rdVal cf F.zero impl .angle (exportObsV F true cf ⟨.angle, from_, to, fs, val, stdev, fromDh, toDh, fsDh, extern⟩ sval).2
       = .ok ⟨.angle, from_, to, fs, val, stdev, fromDh, toDh, fsDh, extern⟩ := by
   have iz : ∀ x, F.isZero x = true ↔ x = F.zero := hF.isZero_iff
-  have q1 := hF.rd_fmt val r1
   have q2 := hF.rd_fmt stdev r2
   have q3 := hF.rd_fmt fromDh r3
   have q4 := hF.rd_fmt toDh r4
   have q5 := hF.rd_fmt fsDh r5
   by_cases e2 : fromDh = F.zero <;> by_cases e3 : toDh = F.zero <;> by_cases e4 : fsDh = F.zero <;> by_cases e1 : cf = from_ <;> by_cases e5 : extern = "" <;>
-  simp [exportObs, parseObs, reach, route, dhAttr, Kind.elem, rdOr, q1, q2, q3, q4, q5, bind, Except.bind, pure, Except.pure,
+  simp [exportObsV, parseObsV, reach, route, dhAttr, Kind.elem, rdOr, q1, q2, q3, q4, q5, bind, Except.bind, pure, Except.pure,
     iz, h1, h2, *]
+
+/-- the numbers of an observation other than its value are representable -/
+structure Obs.RepAttrs (R : K → Prop) (o : Obs K) : Prop where
+  stdev : R o.stdev
+  fromDh : R o.fromDh
+  toDh : R o.toDh
+  fsDh : R o.fsDh
+
+/-- an observation written with any text `sval` for its value and read with a reader `rdVal` that turns that text into
+    the value (gons: `to_xmlstr` / `toDouble`; degrees: `gon2deg` / `deg2gon`) -/
+theorem parse_export_obsV (F : NumFmt K) (hF : F.LawfulOn R) (rdVal : String → Option K) (sval : String) (cf : String)
+    (impl : K) (o : Obs K) (hw : o.WF F) (hv : rdVal sval = some o.val) (hr : o.RepAttrs R)
+    (hdir : o.kind = .direction → o.from_ = cf) :
+    parseObsV F rdVal cf F.zero impl o.kind (exportObsV F true cf o sval).2 = .ok o := by
+  obtain ⟨kind, from_, to, fs, val, stdev, fromDh, toDh, fsDh, extern⟩ := o
+  obtain ⟨h1, h2, h3, h4⟩ := hw
+  obtain ⟨r2, r3, r4, r5⟩ := hr
+  simp only at h1 h2 h3 h4 hdir hv r2 r3 r4 r5
+  cases kind
+  · exact pe_distance F hF rdVal sval cf impl _ _ _ _ _ _ _ _ _ hv r2 r3 r4 r5 h1 h2 (h4 (by decide)).1 (h4 (by decide)).2
+  · exact pe_direction F hF rdVal sval cf impl _ _ _ _ _ _ _ _ _ hv r2 r3 r4 r5 h1 h2 (h4 (by decide)).1 (h4 (by decide)).2 (hdir rfl)
+  · exact pe_angle F hF rdVal sval cf impl _ _ _ _ _ _ _ _ _ hv r2 r3 r4 r5 h1 h2 (h3 rfl)
+  · exact pe_sdistance F hF rdVal sval cf impl _ _ _ _ _ _ _ _ _ hv r2 r3 r4 r5 h1 h2 (h4 (by decide)).1 (h4 (by decide)).2
+  · exact pe_zangle F hF rdVal sval cf impl _ _ _ _ _ _ _ _ _ hv r2 r3 r4 r5 h1 h2 (h4 (by decide)).1 (h4 (by decide)).2
+  · exact pe_azimuth F hF rdVal sval cf impl _ _ _ _ _ _ _ _ _ hv r2 r3 r4 r5 h1 h2 (h4 (by decide)).1 (h4 (by decide)).2
 
 theorem parse_export_obs (F : NumFmt K) (hF : F.LawfulOn R) (cf : String) (impl : K) (o : Obs K)
     (hw : o.WF F) (hr : o.Rep R) (hdir : o.kind = .direction → o.from_ = cf) :
-    parseObs F cf F.zero impl o.kind (exportObs F true cf o).2 = .ok o := by
-  obtain ⟨kind, from_, to, fs, val, stdev, fromDh, toDh, fsDh, extern⟩ := o
-  obtain ⟨h1, h2, h3, h4⟩ := hw
-  obtain ⟨r1, r2, r3, r4, r5⟩ := hr
-  simp only at h1 h2 h3 h4 hdir r1 r2 r3 r4 r5
-  cases kind
-  · exact pe_distance F hF cf impl _ _ _ _ _ _ _ _ _ r1 r2 r3 r4 r5 h1 h2 (h4 (by decide)).1 (h4 (by decide)).2
-  · exact pe_direction F hF cf impl _ _ _ _ _ _ _ _ _ r1 r2 r3 r4 r5 h1 h2 (h4 (by decide)).1 (h4 (by decide)).2 (hdir rfl)
-  · exact pe_angle F hF cf impl _ _ _ _ _ _ _ _ _ r1 r2 r3 r4 r5 h1 h2 (h3 rfl)
-  · exact pe_sdistance F hF cf impl _ _ _ _ _ _ _ _ _ r1 r2 r3 r4 r5 h1 h2 (h4 (by decide)).1 (h4 (by decide)).2
-  · exact pe_zangle F hF cf impl _ _ _ _ _ _ _ _ _ r1 r2 r3 r4 r5 h1 h2 (h4 (by decide)).1 (h4 (by decide)).2
-  · exact pe_azimuth F hF cf impl _ _ _ _ _ _ _ _ _ r1 r2 r3 r4 r5 h1 h2 (h4 (by decide)).1 (h4 (by decide)).2
+    parseObs F cf F.zero impl o.kind (exportObs F true cf o).2 = .ok o :=
+  parse_export_obsV F hF F.rd (F.fmt o.val) cf impl o hw (hF.rd_fmt _ hr.val) ⟨hr.stdev, hr.fromDh, hr.toDh, hr.fsDh⟩ hdir
 
 /-- at the pinned commit `extern` is not exported: the round trip holds only for observations without it -/
 theorem parse_export_obs_noext_witness (F : NumFmt K) (hF : F.LawfulOn R) (x : K) (hx : R x) :
@@ -144,7 +153,7 @@ theorem parse_export_obs_noext_witness (F : NumFmt K) (hF : F.LawfulOn R) (x : K
       (exportObs F false "A" ⟨.distance, "A", "B", "", x, x, F.zero, F.zero, F.zero, "e1"⟩).2
       = .ok ⟨.distance, "A", "B", "", x, x, F.zero, F.zero, F.zero, ""⟩ := by
   have iz : F.isZero F.zero = true := (hF.isZero_iff _).mpr rfl
-  simp [exportObs, parseObs, reach, route, dhAttr, Kind.elem, rdOr, hF.rd_fmt x hx, bind, Except.bind, pure, Except.pure, iz]
+  simp [exportObs, parseObs, exportObsV, parseObsV, reach, route, dhAttr, Kind.elem, rdOr, hF.rd_fmt x hx, bind, Except.bind, pure, Except.pure, iz]
 
 theorem parse_export_dh (F : NumFmt K) (hF : F.LawfulOn R) (sd : K → K) (pos : K → Bool) (h : HDiff K)
     (h1 : h.from_ ≠ "") (h2 : h.to ≠ "") (hr : R h.val ∧ (pos h.dist = true → R h.dist) ∧ (pos h.dist = false → R h.stdev))
